@@ -118,7 +118,10 @@ def untraced_call(fn, *a, **k):
     constructs objects from concrete arguments (e.g. a class-dispatch table); never for code under test."""
     if REAL:
         return fn(*a, **k)
+    from crosshair.core import CrossHairValue, deep_realize
     from crosshair.tracers import NoTracing
 
     with NoTracing():
+        a = tuple(deep_realize(x) if isinstance(x, CrossHairValue) else x for x in a)
+        k = {n: (deep_realize(x) if isinstance(x, CrossHairValue) else x) for n, x in k.items()}
         return fn(*a, **k)
